@@ -70,19 +70,20 @@ func (w *World) Dial(ctx context.Context, from, addr string) (net.Conn, error) {
 	if l == nil {
 		return nil, refused(addr)
 	}
-	c1, c2 := net.Pipe()
-	cli := simConn{c1, simAddr{from}, simAddr{addr}}
-	srv := simConn{c2, simAddr{addr}, simAddr{from}}
+	// (net.Pipe would make every write wait for its reader; a socket lets the
+	// writer run ahead by the buffer size, which is what lets an abandoned
+	// upload keep going behind an early reply)
+	cli, srv := w.newTCPPair(from, addr, w.NetBuf)
 	select {
 	case l.ch <- srv:
 		return cli, nil
 	case <-l.closed:
-		c1.Close()
-		c2.Close()
+		cli.Close()
+		srv.Close()
 		return nil, refused(addr)
 	case <-ctx.Done():
-		c1.Close()
-		c2.Close()
+		cli.Close()
+		srv.Close()
 		return nil, ctx.Err()
 	}
 }
